@@ -186,6 +186,12 @@ def gen_project(rng, idx, ties):
             fs.append(name)
         cname = f"K{li}"
         src.append(f"class {cname}:\n    def __init__(self, a):\n        self.a = a.init{li}\n")
+        # module-level non-callables and other symbol kinds: a star import re-exports every one of them
+        for extra in rng.sample([f"LIMIT{li} = {li}", f"ann{li}: int = 1", f"ta{li}, tb{li} = 1, 2",
+                                 f"lam{li} = lambda z: z.lam{li}", f"class Bare{li}:\n    pass\n",
+                                 f"from collections import namedtuple\nNT{li} = namedtuple('NT{li}', ['u', 'v'])"],
+                                rng.randint(0, 3)):
+            src.append(extra + "\n")
         if rng.random() < 0.5 and li + 1 < nlib:
             src.insert(0, f"from lib{li + 1} import h{li + 1}0\n")
             src.append(f"def chain{li}(q):\n    return h{li + 1}0(q)\n")
@@ -273,6 +279,10 @@ CORPUS = [
      "target.py": "from lib import *\n\ndef f(z):\n    return a(z)\n"},
     {"target.py": "lam = lambda z: z.w\n\ndef f0(a, b):\n    lam(a)\n    lam(b)\n\ndef f1(a, b):\n    f0(b, b.w)\n"
                   "    f0(a, a.w)\n\ndef f2(a, b):\n    f1(b, b.w)\n"},
+    # a star import of a module with module-level VARIABLES (not only callables): the Import symbols the
+    # expansion creates must serialise to something the deserialiser accepts
+    {"lib.py": "LIMIT = 3\nann: int = 1\nta, tb = 1, 2\nlam = lambda z: z.w\n\ndef helper(a):\n    return a.x\n\nclass K:\n    pass\n",
+     "target.py": "from lib import *\n\ndef f(p):\n    return helper(p), LIMIT, lam(p)\n"},
     # one callee under two import spellings, both called in one function: two call targets that are equal
     # as symbols but declared on different lines (seeded C18-m3: a cache keyed on location-blind equality)
     {"helper.py": "def helper(x, y):\n    return x.p + y.q\n",
